@@ -1,0 +1,141 @@
+//go:build verif
+
+// Contracts for the deductive verifier in /verif (govc): pre-selecting shards
+// by repository filters neither drops nor adds results (C18). Comment-only
+// file, compiled only with -tags verif.
+
+package search
+
+// selPred(repo): the repository filter under discussion (a repository set, id
+// set, name pattern, branches-repos list or metadata pattern) accepts repo
+// (abstract: what each kind of filter means is decided by its closure).
+//@ abstract func selPred(repo *zoekt.Repository) bool
+//@ pure func anyMatch(repos []*zoekt.Repository) bool = exists k int :: 0 <= k && k < len(repos) && selPred(repos[k])
+//@ pure func allMatch(repos []*zoekt.Repository) bool = forall k int :: 0 <= k && k < len(repos) ==> selPred(repos[k])
+
+// The filter as the aggregation closure sees it.
+//@ func search.doSelectRepoSet$1$1.pred(repo)
+//@   ensures result == selPred(repo)
+//@   assigns nothing
+
+// hasReposForPredicate's result: "any" is true exactly when some repository of
+// the shard passes the filter, "all" exactly when every one does.
+//@ func search.doSelectRepoSet$1$1
+//@   requires pred != nil
+//@   loop 1:
+//@     invariant any == (exists k int :: 0 <= k && k <= $i && selPred(repos[k]))
+//@     invariant all == (forall k int :: 0 <= k && k <= $i ==> selPred(repos[k]))
+//@     decreases len(repos) - $i
+//@   ensures any == anyMatch(repos) && all == allMatch(repos)
+//@   assigns nothing
+
+// ... and as doSelectRepoSet uses it.
+//@ func search.doSelectRepoSet.hasRepos(repos)
+//@   ensures result0 == anyMatch(repos) && result1 == allMatch(repos)
+//@   assigns nothing
+
+// doSelectRepoSet: no shard that may hold an accepted repository is dropped
+// (a shard whose repository list is unknown is always kept), and the filter is
+// replaced by "true" (or by a plain branch filter) only when every repository
+// of every shard that will be searched passes it - so the rewritten query
+// selects, on the shards searched, exactly what the original selects.
+// (The "return filtered, and" after the second type switch is dead code: every
+// kind the first switch lets through returns inside the second - proved.)
+//@ func search.doSelectRepoSet
+//@   may_panic
+//@   dead_return -2
+//@   requires forall j int :: 0 <= j && j < len(shards) ==> shards[j] != nil
+//@   loop 1:
+//@     invariant forall j int :: 0 <= j && j < len(shards) ==> shards[j] != nil
+//@   loop 2:
+//@     invariant forall j int :: 0 <= j && j < len(shards) ==> shards[j] != nil
+//@   loop 3:
+//@     invariant forall j int :: 0 <= j && j < len(shards) ==> shards[j] != nil
+//@     invariant filtered != nil && fresh(filtered)
+//@     invariant forall a int :: 0 <= a && a < len(filtered) ==> (exists j int :: 0 <= j && j <= $i && filtered[a] == shards[j] && (shards[j].repos == nil || anyMatch(shards[j].repos)))
+//@     invariant forall j int :: 0 <= j && j <= $i && (shards[j].repos == nil || anyMatch(shards[j].repos)) ==> (exists a int :: 0 <= a && a < len(filtered) && filtered[a] == shards[j])
+//@     invariant filteredAll ==> (forall a int :: 0 <= a && a < len(filtered) ==> filtered[a].repos != nil && allMatch(filtered[a].repos))
+//@     decreases len(shards) - $i
+//@   assert at alloc:Const: filteredAll && (forall a int :: 0 <= a && a < len(filtered) ==> filtered[a].repos != nil && allMatch(filtered[a].repos))
+//@   assert at alloc:Branch: filteredAll && (forall a int :: 0 <= a && a < len(filtered) ==> filtered[a].repos != nil && allMatch(filtered[a].repos))
+//@   assert at alloc:Branch: len(c.List) == 1
+//@   assert at alloc:And: filteredAll && len(filtered) > 0
+//@   ensures forall j int :: 0 <= j && j < len(shards) && (shards[j].repos == nil || anyMatch(shards[j].repos)) ==> (exists a int :: 0 <= a && a < len(result0) && result0[a] == shards[j])
+
+// query.Simplify builds new query nodes; it does not write the shard list
+// (assumed frame).
+//@ func query.Simplify
+//@   trusted
+//@   flag only_for=search.
+//@   assigns nothing
+
+// ---------------------------------------------------------------------------
+// What each kind of repository filter accepts (the closures handed to
+// hasReposForPredicate). The same formulas are the contracts of the closures
+// that indexData.simplify uses inside a shard (index/zz_verif_contracts_c18.go):
+// selection before the search and simplification inside the shard apply one
+// and the same predicate per filter kind.
+// ---------------------------------------------------------------------------
+
+// reMatch(re, s) and bmHas(b, id) are the uninterpreted meanings of a pattern
+// match and of bitmap membership (declared with the library contracts).
+
+//@ func regexp.(*Regexp).MatchString
+//@   trusted
+//@   flag only_for=search.doSelectRepoSet
+//@   ensures result == reMatch(re, s)
+//@   assigns nothing
+
+//@ func roaring.(*Bitmap).Contains
+//@   trusted
+//@   flag only_for=search.doSelectRepoSet
+//@   ensures result == bmHas(rb, x)
+//@   assigns nothing
+
+// repository set: the name is in the set
+//@ func search.doSelectRepoSet$2
+//@   requires repo != nil && setQuery != nil
+//@   ensures result == setQuery.Set[repo.Name]
+//@   assigns nothing
+
+// repository ids: the id is in the bitmap
+//@ func search.doSelectRepoSet$3
+//@   requires repo != nil && setQuery != nil
+//@   ensures result == bmHas(setQuery.Repos, repo.ID)
+//@   assigns nothing
+
+// repository name pattern
+//@ func search.doSelectRepoSet$4
+//@   requires repo != nil && setQuery != nil
+//@   ensures result == reMatch(setQuery.Regexp, repo.Name)
+//@   assigns nothing
+
+// branches-repos list: the id is in the bitmap of some entry
+//@ func search.doSelectRepoSet$5
+//@   requires repo != nil && setQuery != nil
+//@   loop 1:
+//@     invariant forall k int :: 0 <= k && k <= $i ==> !bmHas(setQuery.List[k].Repos, repo.ID)
+//@     decreases len(setQuery.List) - $i
+//@   ensures result == (exists k int :: 0 <= k && k < len(setQuery.List) && bmHas(setQuery.List[k].Repos, repo.ID))
+//@   assigns nothing
+
+// metadata filter: the field is present and its value matches
+//@ func search.doSelectRepoSet$6
+//@   requires repo != nil && setQuery != nil
+//@   ensures result == (repo.Metadata != nil && has(repo.Metadata, setQuery.Field) && reMatch(setQuery.Value, repo.Metadata[setQuery.Field]))
+//@   assigns nothing
+
+// ---------------------------------------------------------------------------
+// Pre-evaluating type:repo sub-queries: the sub-query is replaced by the set
+// of exactly the repository names the list call returned for it - no name
+// more, none less; every other node is left alone.
+// ---------------------------------------------------------------------------
+//@ func search.(*typeRepoSearcher).eval$1
+//@   may_panic
+//@   loop 1:
+//@     invariant rs != nil
+//@     invariant forall n string :: has(rs.Set, n) ==> rs.Set[n]
+//@     invariant forall n string :: has(rs.Set, n) == (exists k int :: 0 <= k && k <= $i && rl.Repos[k].Repository.Name == n)
+//@     decreases len(rl.Repos) - $i
+//@   assert at call:LazyPrintf#2: forall n string :: (has(rs.Set, n) && rs.Set[n]) == (exists k int :: 0 <= k && k < len(rl.Repos) && rl.Repos[k].Repository.Name == n)
+//@   ensures !(typeis(q, "*query.Type") && old(as(q, "*query.Type").Type) == 2) && result != nil ==> result == q
